@@ -55,9 +55,11 @@ def request(info, r, fq):
     out["background"] = 0.125
     pd = [p.name for p in P.call_parameters if p.name in P.pd_1d]
     cutoff = 0.0
-    if r in ("pd", "mode", "pd2", "mag") and pd:
+    if r in ("pd", "pdc", "mode", "pd2", "mag") and pd:
         out[pd[0] + "_pd"] = 0.125
         out[pd[0] + "_pd_n"] = 10
+    if r == "pdc":
+        cutoff = 1e-2          # the same request as "pd" except for the cutoff
     if r == "pd2" and len(pd) > 1:
         out[pd[0] + "_pd_n"] = 11
         out[pd[1] + "_pd"] = 0.25
